@@ -23,7 +23,7 @@ const (
 )
 
 // entryFieldVars enumerates the locations reachable from the parameters.
-func (c *Ctx) entryFieldVars() []fieldVar {
+func (c *Ctx) entryFieldVars(extraKeys []string) []fieldVar {
 	var out []fieldVar
 	if c.fn == nil || c.entryEnvVars == nil {
 		return nil
@@ -44,6 +44,12 @@ func (c *Ctx) entryFieldVars() []fieldVar {
 	}
 	var walkVal func(path string, v Val, t types.Type, depth int)
 	var walkStructAt func(path, ref string, t types.Type, depth int)
+	type mapLoc struct {
+		path, ref string
+		mt        *types.Map
+		depth     int
+	}
+	var maps []mapLoc
 
 	// fieldVal builds the entry value of field i of the struct at ref (nil when no VC reads it)
 	fieldVal := func(ref string, t types.Type, i int) Val {
@@ -131,10 +137,22 @@ func (c *Ctx) entryFieldVars() []fieldVar {
 				walkStructAt(fp, fmt.Sprintf("(mksub %s %d)", ref, i), ft, depth)
 				continue
 			case *types.Array:
-				scalarArrayAt(fp, fmt.Sprintf("(mksub %s %d)", ref, i), u)
+				aref := fmt.Sprintf("(mksub %s %d)", ref, i)
+				if structOf(u.Elem()) != nil {
+					// small array of structs: the elements are objects (mkelem <array> k)
+					for k := int64(0); k < u.Len() && k < 8; k++ {
+						walkStructAt(fmt.Sprintf("%s[%d]", fp, k), fmt.Sprintf("(mkelem %s %s)", aref, c.ar.idx(k)), u.Elem(), depth+1)
+					}
+					continue
+				}
+				scalarArrayAt(fp, aref, u)
 				continue
 			case *types.Map:
-				emit(fieldVar{Path: fp, Ty: ft, Kind: "map"})
+				if h, ok := heap0(fieldHeapName(typeName(t), f.Name(), "")); ok {
+					mref := fmt.Sprintf("(select %s %s)", h, ref)
+					emit(fieldVar{Path: fp, Term: mref, Ty: ft, Kind: "map"})
+					maps = append(maps, mapLoc{fp, mref, u, depth})
+				}
 				continue
 			case *types.Chan:
 				emit(fieldVar{Path: fp, Ty: ft, Kind: "chan"})
@@ -151,6 +169,9 @@ func (c *Ctx) entryFieldVars() []fieldVar {
 		}
 		switch x := v.(type) {
 		case Scalar:
+			if x.T == "" {
+				return
+			}
 			switch u := t.Underlying().(type) {
 			case *types.Basic:
 				switch {
@@ -255,6 +276,79 @@ func (c *Ctx) entryFieldVars() []fieldVar {
 			continue
 		}
 		walkVal(p.Name(), v, p.Type(), 0)
+	}
+	// maps: the keys worth asking about are the entry scalars of the key's type (parameters, fields); for each the
+	// model says whether it is present and with which value. The cardinality is read too (filled up with other keys).
+	for mi := 0; mi < len(maps) && mi < 8; mi++ {
+		ml := maps[mi]
+		ks, ok := c.ar.sortOfScalar(ml.mt.Key())
+		if !ok || ks == SRef || ks == SStr || ks == SReal || ks == SBool {
+			continue
+		}
+		base := "M:" + typeName(ml.mt)
+		ph, ok := heap0(base + "#present")
+		if !ok {
+			continue
+		}
+		if ch, ok := heap0(base + "#card"); ok {
+			emit(fieldVar{Path: ml.path, Term: fmt.Sprintf("(select %s %s)", ch, ml.ref), Ty: ml.mt, Kind: "map-card"})
+		}
+		var keys []string
+		seenKey := map[string]bool{}
+		for _, fv := range out {
+			if fv.Kind == "scalar" && fv.Term != "" && types.Identical(fv.Ty, ml.mt.Key()) && !seenKey[fv.Term] && len(keys) < 6 {
+				seenKey[fv.Term] = true
+				keys = append(keys, fv.Term)
+			}
+		}
+		var mapVal func(kt string, t types.Type, path string) Val
+		mapVal = func(kt string, t types.Type, path string) Val {
+			if st := structOf(t); st != nil {
+				sv := StructV{Ty: t}
+				for i := 0; i < st.NumFields(); i++ {
+					fvv := mapVal(kt, st.Field(i).Type(), path+"."+st.Field(i).Name())
+					if fvv == nil {
+						fvv = Scalar{"", "", st.Field(i).Type()} // not read by any VC
+					}
+					sv.F = append(sv.F, fvv)
+				}
+				return sv
+			}
+			cs := c.ar.comps(t)
+			if cs == nil {
+				return nil
+			}
+			var terms []string
+			for _, cp := range cs {
+				h, ok := heap0(base + "#val" + path + cp.Path)
+				if !ok {
+					return nil
+				}
+				terms = append(terms, fmt.Sprintf("(select (select %s %s) %s)", h, ml.ref, kt))
+			}
+			switch t.Underlying().(type) {
+			case *types.Slice:
+				return SliceV{terms[0], terms[1], terms[2], terms[3], t}
+			case *types.Interface:
+				return IfaceV{terms[0], terms[1], terms[2], t}
+			}
+			return Scalar{terms[0], cs[0].S, t}
+		}
+		if ks == c.ar.idxSort() {
+			for _, k := range extraKeys {
+				if !seenKey[k] {
+					seenKey[k] = true
+					keys = append(keys, k)
+				}
+			}
+		}
+		for j, kt := range keys {
+			ep := fmt.Sprintf("%s{%d}", ml.path, j)
+			emit(fieldVar{Path: ep, Term: fmt.Sprintf("(select (select %s %s) %s)", ph, ml.ref, kt), Ty: ml.mt.Elem(), Kind: "map-entry", Extra: []string{kt}})
+			if v := mapVal(kt, ml.mt.Elem(), ""); v != nil {
+				walkVal(ep, v, ml.mt.Elem(), ml.depth+1)
+			}
+		}
 	}
 	// free variables of closures are not constructible; string literals: identify model values with their text
 	for lit, n := range c.strLits {
